@@ -235,7 +235,7 @@ int check_main(int argc, char **argv) {
     if (argc < 3 || strcmp(argv[1], "check")) { fprintf(stderr, "usage: pncsim check <id> [--tier quick|thorough] [--seconds N] [--seeds N] [--workers W] | replay <file> | show <id> <seed> | detgate <id> <n> | smoke\n"); return 2; }
     std::string id = argv[2]; const Profile *pf = find_profile(id);
     if (!pf) { fprintf(stderr, "unknown property %s\n", id.c_str()); return 2; }
-    bool thorough = false; double seconds = -1; long seeds = -1; int W = 16; std::string variant = "plain";
+    bool thorough = false; double seconds = -1; long seeds = -1; int W = 16; std::string variant = "plain"; bool no_evidence = false; double scale = 1.0;
     if (getenv("VERIF_TIER") && !strcmp(getenv("VERIF_TIER"), "thorough")) thorough = true;
     for (int i = 3; i < argc; i++) {
         if (!strcmp(argv[i], "--tier") && i + 1 < argc) thorough = !strcmp(argv[++i], "thorough");
@@ -243,8 +243,11 @@ int check_main(int argc, char **argv) {
         else if (!strcmp(argv[i], "--seeds") && i + 1 < argc) seeds = atol(argv[++i]);
         else if (!strcmp(argv[i], "--workers") && i + 1 < argc) W = atoi(argv[++i]);
         else if (!strcmp(argv[i], "--variant") && i + 1 < argc) variant = argv[++i];
+        else if (!strcmp(argv[i], "--no-evidence")) no_evidence = true;
+        else if (!strcmp(argv[i], "--budget-scale") && i + 1 < argc) scale = atof(argv[++i]);
     }
     if (seconds < 0) seconds = thorough ? pf->thorough_s : pf->quick_s;
+    seconds *= scale;
     uint64_t base = 1; if (getenv("VERIF_SEED")) base = strtoull(getenv("VERIF_SEED"), nullptr, 10);
     double t0 = now_s();
     printf("check %s tier=%s variant=%s base_seed=%llu budget=%.0fs workers=%d\n", id.c_str(), thorough ? "thorough" : "quick", variant.c_str(), (unsigned long long)base, seconds, W);
@@ -369,7 +372,7 @@ int check_main(int argc, char **argv) {
     as.push("simmpi/SimFS implement the MPI-3.1 contract as read by the authors of /verif; POSIX-strong visibility (storage model A)");
     ev.set("assumptions", as).set("wall_s", wall).set("violations", violations);
     mkdir((verif_dir() + "/evidence").c_str(), 0755);
-    spit(verif_dir() + "/evidence/" + id + ".json", ev.dump(1));
+    if (!no_evidence) spit(verif_dir() + "/evidence/" + id + ".json", ev.dump(1));
     printf("%s: %ld runs (%zu distinct non-trivial) in %.1fs, %ld violation(s), %ld known-finding hit(s) suppressed, exit %d\n", id.c_str(), tot.evals, distinct.size(), wall, violations, tot.known_suppressed, exit_code);
     return exit_code;
 }
